@@ -47,11 +47,21 @@ class K:
 def g0(n):
     for i in range(n):
         yield {'i': i, 'sq': i * i, 'cu': i}
+
+
+def late(a):
+    return a
+
+
+def pipeline(x):
+    bump = lambda v: v + 1  # noqa: E731 - a lambda held in a local of a frame on the stack: findable, hence recorded when accepted
+    return bump(x)
 '''
 CALLS = {
     "f0": "M.f0(1)", "f1": "M.f1('s')", "f2": "M.f2({'a': 1, 'b': 2, 'c': 3})", "f3": "M.f3(4)", "K.m0": "M.K().m0(1)", "K.s0": "M.K.s0({'u': 1, 'v': 's'})",
-    "K.c0": "list(M.K.c0(1))", "g0": "list(M.g0(2))",
+    "K.c0": "list(M.K.c0(1))", "g0": "list(M.g0(2))", "late": "M.late(1)", "pipeline": "M.pipeline(1)",
 }
+LAMBDA = "pipeline.<locals>.<lambda>"
 KS = [10, 3, 0, 2, 1, 0, 3, 10, 2]
 
 
@@ -64,7 +74,7 @@ def work(p):
     from monkeytype.tracing import CallTraceLogger, trace_calls
     import monkeytype
 
-    res17, res06 = core.Res(), core.Res()
+    res17, res06, res02, res18 = core.Res(), core.Res(), core.Res(), core.Res()
     d = core.scratch("sess")
     sys.path.insert(0, d)
     for case in p["cases"]:
@@ -107,79 +117,123 @@ def work(p):
                 return state["k"]
 
             def sample_rate(self):
-                return None
+                return state.get("rate")
 
+        lam_code = next(c for c in M.pipeline.__code__.co_consts if hasattr(c, "co_code"))
         for mode in case["modes"]:
             lg = L()
             cfg = Cfg(lg)
             blocks = []
             nblocks = case.get("blocks", 6)
+            # the module function `late` is first called while its name is not bound anywhere a tracer could find it (block 0),
+            # later it is an ordinary module function again
+            holder = [M.late]
             for b in range(nblocks):
-                accepted = set(rng.sample(quals, rng.randint(0, len(quals))))
+                universe = quals + [LAMBDA]
+                accepted = set(rng.sample(universe, rng.randint(0, len(universe))))
                 if b == 1 and rng.random() < 0.5:
                     accepted = None  # a block without any filter
                 called = rng.sample(quals, rng.randint(1, len(quals)))
                 k = KS[(b + case.get("koff", 0)) % len(KS)]
+                rate = [None, None, 3, None, 50, 1, None][(b + case.get("koff", 0)) % 7] if case.get("rates") else None
                 codes = {q: eval("M." + q, {"M": M}) for q in quals}  # noqa: S307
-                acc_codes = None if accepted is None else {getattr(getattr(codes[q], "__func__", codes[q]), "__code__") for q in accepted}
+                codes = {q: getattr(getattr(v, "__func__", v), "__code__") for q, v in codes.items()}
+                codes[LAMBDA] = lam_code
+                acc_codes = None if accepted is None else {codes[q] for q in accepted}
 
                 def flt(code, acc_codes=acc_codes):
                     return code.co_filename == path and code in acc_codes
 
-                the_filter = None if accepted is None else flt
+                the_filter = (lambda code: code.co_filename == path) if accepted is None else flt
+                nested = mode == "nested-same-logger" and b % 2 == 1
+
+                def run_calls():
+                    for q in called:
+                        if q == "late" and b == 0:
+                            del M.late
+                            try:
+                                holder[0](1)
+                            finally:
+                                M.late = holder[0]
+                        else:
+                            eval(CALLS[q], {"M": M})  # noqa: S307
+
                 lg.block = b
-                if mode == "trace_calls-same-logger":
-                    with trace_calls(lg, k, the_filter):
-                        for q in called:
-                            eval(CALLS[q], {"M": M})  # noqa: S307
-                else:
-                    state["filter"], state["k"] = the_filter, k
+                if mode == "trace-config-same-config":
+                    state["filter"], state["k"], state["rate"] = the_filter, k, rate
                     with monkeytype.trace(cfg):
-                        for q in called:
-                            eval(CALLS[q], {"M": M})  # noqa: S307
-                blocks.append((accepted, called, k))
+                        run_calls()
+                elif nested:
+                    # an enclosing block with another limit / filter / rate on the SAME logger; the inner block is the one judged
+                    with trace_calls(lg, KS[(b + 3) % len(KS)] + 7, (lambda code: code.co_filename == path) if b % 4 == 1 else (lambda code: False), None):
+                        with trace_calls(lg, k, the_filter, rate):
+                            run_calls()
+                else:
+                    with trace_calls(lg, k, the_filter, rate):
+                        run_calls()
+                blocks.append((accepted, called, k, rate))
             lg.block = None
-            for b, (accepted, called, k) in enumerate(blocks):
-                res17.count("evaluations")
-                res17.count("session_blocks")
-                res06.count("evaluations")
-                res06.count("session_blocks")
+            for b, (accepted, called, k, rate) in enumerate(blocks):
+                for r_ in (res17, res06, res02, res18):
+                    r_.count("evaluations")
+                    r_.count("session_blocks")
                 got = [t for bb, t in lg.logged if bb == b and getattr(t.func, "__module__", None) == name]
                 gotq = sorted({t.func.__qualname__ for t in got})
-                want = sorted(set(called) if accepted is None else set(called) & accepted)
-                wit = {"case": case, "mode": mode, "block": b, "accepted": None if accepted is None else sorted(accepted), "called": called, "k": k}
-                res17.shape(f"{mode}|{b}|{len(want)}|{accepted is None}")
+                eff = set(called) | ({LAMBDA} if "pipeline" in called else set())
+                want = sorted(eff if accepted is None else eff & accepted)
+                if b == 0 and "late" in want:
+                    want.remove("late")  # not findable by name during block 0: a trace is allowed, not due
+                    gotq = [q for q in gotq if q != "late"]
+                wit = {"case": case, "mode": mode, "block": b, "accepted": None if accepted is None else sorted(accepted), "called": called, "k": k, "rate": rate}
+                res17.shape(f"{mode}|{b}|{len(want)}|{accepted is None}|{rate}")
                 res17.seen("session_modes", mode)
-                if gotq != want:
-                    extra, missing = sorted(set(gotq) - set(want)), sorted(set(want) - set(gotq))
-                    key = "rejected-function-recorded:later-block-of-a-session" if extra else "accepted-function-not-recorded:later-block-of-a-session"
-                    if b == 0:
-                        key = key.replace(":later-block-of-a-session", ":first-block")
-                    res17.violation(key, f"{mode}, block {b}: logged {gotq}, expected {want} (filter accepts {wit['accepted']})", wit)
+                sfx = ":first-block" if b == 0 else ":later-block-of-a-session"
+                if rate in (None, 1):
+                    res18.count("session_blocks_with_sampling_off")
+                    if b and any(bl[3] not in (None, 1) for bl in blocks[:b]):
+                        res18.count("session_blocks_with_sampling_off_after_a_sampled_block")
+                    if gotq != want:
+                        extra, missing = sorted(set(gotq) - set(want)), sorted(set(want) - set(gotq))
+                        if extra:
+                            res17.violation("rejected-function-recorded" + sfx, f"{mode}, block {b}: logged {gotq}, expected {want} (filter accepts {wit['accepted']})", wit)
+                        if missing:
+                            res17.violation("accepted-function-not-recorded" + sfx, f"{mode}, block {b}: logged {gotq}, expected {want} (filter accepts {wit['accepted']})", wit)
+                            res02.violation("resolvable-call-not-logged" + sfx, f"{mode}, block {b}: {missing} completed but no trace was logged (logged {gotq})", wit)
+                            res18.violation("calls-not-all-traced-with-sampling-off" + sfx, f"{mode}, block {b} (rate {rate}): {missing} not traced", wit)
+                    if "late" in want:
+                        res02.count("late_bound_function_judgements")
+                    if LAMBDA in want:
+                        res17.count("lambda_in_caller_local_judgements")
+                else:
+                    res18.count("session_blocks_sampled")
+                    extra = sorted(set(gotq) - set(want))
+                    if extra:
+                        res17.violation("rejected-function-recorded" + sfx, f"{mode}, block {b} (rate {rate}): logged {extra} outside {want}", wit)
                 res17.count("accepted_functions", len(want))
                 for t in got:
                     sizes = [s for ty in list((t.arg_types or {}).values()) + [t.return_type, t.yield_type] if ty is not None for s in td_sizes(ty)]
                     res06.count("session_traces_scanned")
                     res06.count("session_typeddict_nodes", len(sizes))
                     if k == 0 and sizes:
-                        res06.violation("typeddict-in-trace-with-limit-zero:later-block-of-a-session" if b else "typeddict-in-trace-with-limit-zero",
+                        res06.violation("typeddict-in-trace-with-limit-zero" + (":later-block-of-a-session" if b else ""),
                                         f"{mode}, block {b} (limit 0): {t.func.__qualname__} logged with a TypedDict", wit)
                     elif sizes and max(sizes) > k:
-                        res06.violation("typeddict-over-limit-in-trace:later-block-of-a-session" if b else "typeddict-over-limit-in-trace",
+                        res06.violation("typeddict-over-limit-in-trace" + (":later-block-of-a-session" if b else ""),
                                         f"{mode}, block {b} (limit {k}): {t.func.__qualname__} logged with a TypedDict of {max(sizes)} keys", wit)
                     elif sizes and min(sizes) == 0:
                         res06.violation("empty-typeddict-in-trace", f"{mode}, block {b}", wit)
-            if lg.flushes != len(blocks):
-                res17.violation("flush-count:session", f"{mode}: {lg.flushes} flushes for {len(blocks)} blocks", {"case": case, "mode": mode})
+            nflush = len(blocks) + (sum(1 for b in range(len(blocks)) if b % 2 == 1) if mode == "nested-same-logger" else 0)
+            if lg.flushes != nflush:
+                res17.violation("flush-count:session", f"{mode}: {lg.flushes} flushes for {nflush} block exits", {"case": case, "mode": mode})
         sys.modules.pop(name, None)
         os.remove(path)
     sys.path.remove(d)
     shutil.rmtree(d, ignore_errors=True)
-    return {"C17": res17.out(), "C06": res06.out()}
+    return {"C17": res17.out(), "C06": res06.out(), "C02": res02.out(), "C18": res18.out()}
 
 
 def cases(ck, n):
-    return [{"id": f"{ck.seed}_{i}", "seed": f"sessions:{ck.seed}:{i}", "modes": ["trace_calls-same-logger", "trace-config-same-config"], "blocks": 6, "koff": i}
+    return [{"id": f"{ck.seed}_{i}", "seed": f"sessions:{ck.seed}:{i}", "modes": ["trace_calls-same-logger", "trace-config-same-config", "nested-same-logger"], "blocks": 6, "koff": i, "rates": i % 2 == 1}
             for i in range(n)]
 
 
